@@ -147,6 +147,21 @@ func cmdVerify(args []string) int {
 			bad++
 		}
 		for _, o := range fr.Obls {
+			if o.Status != "discharged" && fc != nil {
+				class := oblClass(o.Name)
+				unc := false
+				for uc := range fc.Unclaimed {
+					if class == uc || strings.HasPrefix(class, uc+":") || strings.HasPrefix(class, uc+"#") {
+						unc = true
+					}
+				}
+				if unc {
+					if *verbose {
+						fmt.Printf("    UNCLAIMED   %s (%s)\n", o.Name, o.Status)
+					}
+					continue
+				}
+			}
 			if o.Status != "discharged" {
 				bad++
 			}
@@ -177,6 +192,14 @@ func printOblResult(o *OblResult, verbose bool, dump string) {
 			fmt.Println("  assume", a)
 		}
 		fmt.Println("  goal  ", o.Failing.Goal)
+		if o.exec != nil {
+			raw := &Query{Name: o.Name, Assumes: o.Failing.Assumes, Goal: o.Failing.Goal}
+			os.WriteFile("/tmp/raw-vc.smt2", []byte(raw.smtlib(false, "z3")), 0o644)
+			q := o.exec.buildQueryM(o.Failing, 2, 6, true)
+			os.WriteFile("/tmp/qf-vc.smt2", []byte(q.smtlib(true, "z3")), 0o644)
+			q2 := o.exec.buildQueryR(o.Failing, 2, 1)
+			os.WriteFile("/tmp/full-vc.smt2", []byte(q2.smtlib(false, "z3")), 0o644)
+		}
 	}
 }
 
